@@ -236,6 +236,15 @@ package grpcgcp
 //@   ensures [C09.list-grows] len(gb.scRefList) >= old(len(gb.scRefList)) && listPrefix(gb)
 //@   ensures [C01.frame] homeFrame(gb) && affUnchanged(gb) && fbUnchanged(gb)
 //@   ensures [C20.pool-addrs] (forall sc in gb.scRefs :: !old(sc in gb.scRefs) ==> $addrs[sc] == gb.addrs && $connectRequested[sc]) && gb.addrs == old(gb.addrs)
+// the method table: every name of an entry that has an affinity section is mapped, and every mapping comes from an
+// entry that lists the name and carries exactly that affinity section (no other method is mapped)
+//@   ensures [C17.method-mapped] forall i, mc in gb.cfg.ApiConfig.Method :: mc != nil && mc.Affinity != nil ==> (forall j, name in mc.Name :: name in gb.methodCfg)
+//@   ensures [C17.method-only] forall name in gb.methodCfg :: exists i, mc in gb.cfg.ApiConfig.Method :: mc != nil && mc.Affinity != nil && gb.methodCfg[name] == mc.Affinity && (exists j, n in mc.Name :: n == name)
+//@   loop 1 invariant forall i, mc in methodCfgs :: i <= $i ==> (mc != nil && mc.Affinity != nil ==> (forall j, name in mc.Name :: name in mp))
+//@   loop 1 invariant forall name in mp :: exists i, mc in methodCfgs :: i <= $i && mc != nil && mc.Affinity != nil && mp[name] == mc.Affinity && (exists j, n in mc.Name :: n == name)
+//@   loop 2 invariant forall i, mc in methodCfgs :: i < $idx(1) ==> (mc != nil && mc.Affinity != nil ==> (forall j, name in mc.Name :: name in mp))
+//@   loop 2 invariant forall name in mp :: exists i, mc in methodCfgs :: i <= $idx(1) && mc != nil && mc.Affinity != nil && mp[name] == mc.Affinity && (exists j, n in mc.Name :: n == name)
+//@   loop 2 invariant forall j, name in methodNames :: j <= $i ==> name in mp
 //@   fresh_writes pb.ApiConfig pb.ChannelPoolConfig pb.MethodConfig pb.AffinityConfig GCPBalancerConfig
 //@ func (gb *gcpBalancer) regeneratePicker
 //@   locks held gb.mu
